@@ -259,11 +259,14 @@ def selftest(only=None):
             d = os.path.join(base, meta['seed'])
             os.makedirs(d)
             subprocess.run('git -C %s archive HEAD | tar -x -C %s' % (REPO, d), shell=True, check=True)
-            p = subprocess.run(['git', 'apply', os.path.join(os.path.dirname(meta_path), 'patch.diff')], cwd=d,
-                               capture_output=True, text=True)
+            patch_file = os.path.join(os.path.dirname(meta_path), 'patch.diff')
+            rebased = os.path.join(os.path.dirname(meta_path), 'patch.rebased.diff')
+            if os.path.exists(rebased):
+                # the same change carried over by hand after a later fix: commit touched the same lines
+                patch_file = rebased
+            p = subprocess.run(['git', 'apply', patch_file], cwd=d, capture_output=True, text=True)
             if p.returncode != 0:
-                p = subprocess.run(['patch', '-p1', '-s', '-i', os.path.join(os.path.dirname(meta_path), 'patch.diff')], cwd=d,
-                                   capture_output=True, text=True)
+                p = subprocess.run(['patch', '-p1', '-s', '-i', patch_file], cwd=d, capture_output=True, text=True)
             if p.returncode != 0:
                 print('SELFTEST %s: patch no longer applies to HEAD (skipped)' % meta['seed'])
                 shutil.rmtree(d)
